@@ -1,6 +1,8 @@
 import EgVerif.Proofs.Mux
 import EgVerif.Gen.FactsC01
 import EgVerif.Proofs.MuxIR
+import EgVerif.Proofs.MuxCache
+import EgVerif.Proofs.MuxSearchIR
 /-!
 # C01 — HTTP routing: the first rule/path matching host, path, method and headers wins
 
@@ -279,6 +281,76 @@ theorem serve_satisfies_spec (o : Oracle) (σ : Nat → String → String → St
       rw [rewrite_total o σ e q hpv hmp]
       simp [satisfies]
 
+/-! ### Host port, X-Forwarded-For (Extension mux) -/
+
+/-- **Port ignored**: the routing decision reads the `Host` header only through its port-stripped form
+(`hostNoPort`; that this *is* `net.SplitHostPort` of the raw host is `match_regenerated_from_source`).
+Two requests that differ only in the raw `Host` — another port, or none — get the same route, for
+every rule set (exact hosts and host regexps alike), with or without IP filters. -/
+theorem search_port_insensitive (o : Oracle) (c : Cfg) (q : Req) (h : String) :
+    search o c (withHost q h) = search o c q := by
+  have h4 : (withHost q h).ip = q.ip := rfl
+  simp only [search, h4, searchRules_withHost]
+
+/-- … and the handler then sees the same path / X-Forwarded-For and the raw `Host` it was sent. -/
+theorem serve_port_insensitive (o : Oracle) (σ : Nat → String → String → String) (c : Cfg) (x : Bool)
+    (bs : List String) (q : Req) (h : String) :
+    serve o σ c x bs (withHost q h) =
+      match serve o σ c x bs q with
+      | .handled b p _ xf => .handled b p h xf
+      | other => other := by
+  simp only [serve, search_port_insensitive]
+  cases search o c q with
+  | code n => rfl
+  | path ri pi e =>
+    simp only [serveRoute]
+    split
+    · rfl
+    · have hp : (withHost q h).path = q.path := rfl
+      rw [hp]
+      cases rewrite σ e q.path <;> rfl
+
+/-- **`appendXForwardedFor`**: an empty header becomes the client address; a header that already
+contains it (`strings.Contains`) is left alone; otherwise `,address` is appended; in every case the
+resulting header contains the address. -/
+theorem xff_after (v ip : String) :
+    (v = "" → xffAfter v ip = ip) ∧
+    (v ≠ "" → isInfix ip.toList v.toList = true → xffAfter v ip = v) ∧
+    (v ≠ "" → isInfix ip.toList v.toList = false → xffAfter v ip = v ++ "," ++ ip) ∧
+    isInfix ip.toList (xffAfter v ip).toList = true := by
+  refine ⟨?_, ?_, ?_, ?_⟩
+  · intro h; simp [xffAfter, h]
+  · intro h1 h2; simp [xffAfter, h1, h2]
+  · intro h1 h2; simp [xffAfter, h1, h2]
+  · unfold xffAfter
+    split
+    · have := isInfix_append_left ip.toList []; simpa using this
+    · split
+      · assumption
+      · have := isInfix_append_left ip.toList (v.toList ++ [','])
+        simpa [String.toList_append] using this
+
+/-- Appending is idempotent: a second hop with the same client address does not grow the header. -/
+theorem xff_idempotent (v ip : String) (h : xffAfter v ip ≠ "") :
+    xffAfter (xffAfter v ip) ip = xffAfter v ip :=
+  (xff_after (xffAfter v ip) ip).2.1 h (xff_after v ip).2.2.2
+
+/-- The handler sees the appended header exactly when `spec.XForwardedFor` is set. -/
+theorem handled_xff (o : Oracle) (σ : Nat → String → String → String) (c : Cfg) (x : Bool)
+    (bs : List String) (q : Req) (b p hst xf : String) (h : serve o σ c x bs q = .handled b p hst xf) :
+    xf = if x then xffAfter (q.get xffKey) q.ip else q.get xffKey := by
+  unfold serve serveRoute at h
+  split at h
+  · cases h
+  · split at h
+    · cases h
+    · split at h
+      · cases h
+      · injection h with _ _ _ h4; exact h4.symm
+
+example : xffAfter "" "1.2.3.4" = "1.2.3.4" ∧ xffAfter "9.9.9.9" "1.2.3.4" = "9.9.9.9,1.2.3.4" ∧
+    xffAfter "9.9.9.9,1.2.3.4" "1.2.3.4" = "9.9.9.9,1.2.3.4" ∧ xffAfter "11.2.3.45" "1.2.3.4" = "11.2.3.45" := by decide
+
 /-! ### Facts regenerated from `mux.go` on every run -/
 
 /-- The route codes, the 503 of a `GetHandler` miss, the order of the two tail tests of
@@ -322,6 +394,9 @@ example : CfgValid cEx := by
 example : search oEx2 cEx qEx = .path 2 1 { path := "/x/1", rewriteTarget := "/r", backend := "b4" } := by decide
 example : serve oEx2 (fun _ p _ => p) cEx false ["b4"] qEx = .handled "b4" "/r" "a:80" "" := by decide
 example : serve oEx2 (fun _ p _ => p) cEx false ["b0"] qEx = .status 503 := by decide
+/-- the port is ignored: `a:80`, `a:8443` and `a` are routed alike (all have hostNoPort `a`) -/
+example : search oEx2 cEx (withHost qEx "a:8443") = search oEx2 cEx qEx ∧ search oEx2 cEx (withHost qEx "a") = search oEx2 cEx qEx ∧
+    serve oEx2 (fun _ p _ => p) cEx false ["b4"] (withHost qEx "a") = .handled "b4" "/r" "a" "" := by decide
 /-- without rule 2 the same request gets 400 (header mismatch beats the method mismatch). -/
 example : search oEx cEx qEx = .code 400 := by decide
 example : search oEx cEx { qEx with hdr := [("X-A", "1")] } = .path 0 1 { path := "/x/1", headers := [hcEx], backend := "b1" } := by decide
@@ -360,5 +435,22 @@ theorem matchHeaders_regenerated_from_source (o : Oracle) (e : PathEntry) (q : R
 theorem rewrite_regenerated_from_source (σ : Nat → String → String → String) (e : PathEntry) (q : Req) :
     Gen.FactsC01IR.extractionFailed = false ∧ Gen.FactsC01IR.rewriteIR σ e q = rewrite σ e q.path :=
   ⟨by decide, Mux.rewrite_regenerated_from_source σ e q⟩
+
+/-- **`muxInstance.search`** (Extension mux): `Gen.FactsMuxIR.searchIR` is re-translated on every run from
+the current body of `search` — both loops with their `continue`s, the `headerMismatch` / `methodMismatch`
+flags, the three IP checks through the inlined local closure `allow`, the 400 / 405 / 404 tail. With the
+cache lookup answering nil (always so with `cache == nil`, C01's setting) the route it returns is the
+model's cache-less `search`, for all configurations, requests and oracles (`routeGo`: the Go route has
+no rule / path indices). The cached half of the same generated definition is C12's. -/
+theorem search_regenerated_from_source (o : Oracle) (c : Cfg) (q : Req) :
+    Gen.FactsMuxIR.extractionFailed = false ∧
+    (Gen.FactsMuxIR.searchIR o c q none).1 = MuxCache.routeGo (search o c q) := by
+  refine ⟨by decide, ?_⟩
+  rw [MuxCache.search_regenerated_from_source, MuxCache.searchMiss_fst]
+
+/-- `allowIP` (nil filter allows; `none` would be a nil dereference). -/
+theorem allowIP_regenerated_from_source (o : Oracle) (f : Option Nat) (ip : String) :
+    Gen.FactsMuxIR.extractionFailed = false ∧ Gen.FactsMuxIR.allowIPIR o f ip = some (allowIP o f ip) :=
+  ⟨by decide, MuxCache.allowIP_regenerated_from_source o f ip⟩
 
 end EgVerif.C01
